@@ -14,6 +14,7 @@
 From Coq Require Import List NArith Bool.
 From SNT Require Import Base.Dec10 Render.FaceModel Decoder.Sgr.
 From SNT Require Import Encoder.FaceEnc.
+From SNT Require Export Base.Utf8Valid.
 From SNT Require Import Automata.DfaData Automata.Tokenizer.
 Import ListNotations.
 Local Open Scope N_scope.
@@ -54,41 +55,6 @@ Fixpoint filter_map {A B} (f : A -> option B) (l : list A) : list B :=
   | [] => []
   | a :: r => match f a with Some b => b :: filter_map f r | None => filter_map f r end
   end.
-
-(* std::str::from_utf8(..).is_ok() (RFC 3629 well-formedness: no overlongs, no surrogates, <= U+10FFFF) *)
-Definition cont (b : N) : bool := (128 <=? b) && (b <=? 191).
-Fixpoint utf8_valid_aux (fuel : nat) (l : list N) : bool :=
-  match fuel with
-  | O => match l with [] => true | _ => false end
-  | S f =>
-      match l with
-      | [] => true
-      | b0 :: r0 =>
-          if b0 <? 128 then utf8_valid_aux f r0
-          else if (194 <=? b0) && (b0 <=? 223) then
-            match r0 with b1 :: r1 => cont b1 && utf8_valid_aux f r1 | _ => false end
-          else if (224 <=? b0) && (b0 <=? 239) then
-            match r0 with
-            | b1 :: b2 :: r2 =>
-                (if b0 =? 224 then (160 <=? b1) && (b1 <=? 191)
-                 else if b0 =? 237 then (128 <=? b1) && (b1 <=? 159)
-                 else cont b1)
-                && cont b2 && utf8_valid_aux f r2
-            | _ => false
-            end
-          else if (240 <=? b0) && (b0 <=? 244) then
-            match r0 with
-            | b1 :: b2 :: b3 :: r3 =>
-                (if b0 =? 240 then (144 <=? b1) && (b1 <=? 191)
-                 else if b0 =? 244 then (128 <=? b1) && (b1 <=? 143)
-                 else cont b1)
-                && cont b2 && cont b3 && utf8_valid_aux f r3
-            | _ => false
-            end
-          else false
-      end
-  end.
-Definition utf8_valid (l : list N) : bool := utf8_valid_aux (length l) l.
 
 (* utf8_decode (decoder.rs): the code point assembled from a matched 1..4 byte slice *)
 Definition utf8_code (slice : list N) : option N :=
@@ -236,27 +202,32 @@ Definition dec_kitty_keyboard (data : list N) : option tev :=
 
 (* ---- 7 MouseEventMatcher ---- *)
 Definition last_byte (data : list N) : N := last data 0.
-(* button / modifier decoding of the first parameter; `press` = the final byte is 'M' *)
-Definition mouse_fields (event : N) (press : bool) : mname * N :=
+(* button / modifier decoding of the first parameter; `press` = the final byte is 'M';
+   None: a button the library has no name for (bit 7, horizontal wheel) *)
+Definition mouse_fields (event : N) (press : bool) : option (mname * N) :=
   let mode := mod_from_bits (N.land (N.shiftr event 2) 7) in
   let mode := if press then N.lor mode MOD_PRESS else mode in
   let button := N.land event 3 in
-  let name :=
-    if negb (N.land event 64 =? 0) then
-      (if button =? 0 then MWheelDown else if button =? 1 then MWheelUp else MMove)
-    else if button =? 0 then MLeft
-    else if button =? 1 then MMiddle
-    else if button =? 2 then MRight
-    else MMove in
-  (name, mode).
+  if negb (N.land event 128 =? 0) || (negb (N.land event 64 =? 0) && (1 <? button)) then None
+  else
+    let name :=
+      if negb (N.land event 64 =? 0) then
+        (if button =? 0 then MWheelDown else if button =? 1 then MWheelUp else MMove)
+      else if button =? 0 then MLeft
+      else if button =? 1 then MMiddle
+      else if button =? 2 then MRight
+      else MMove in
+    Some (name, mode).
 
 Definition dec_mouse (data : list N) : option tev :=
   match numbers_decode (sl 3 1 data) 59 with
   | event :: c :: r :: _ =>
       match checked_dec c, checked_dec r with
       | Some col, Some row =>
-          let '(name, mode) := mouse_fields event (last_byte data =? 77) in
-          Some (EMouse name mode row col)
+          match mouse_fields event (last_byte data =? 77) with
+          | Some (name, mode) => Some (EMouse name mode row col)
+          | None => None
+          end
       | _, _ => None
       end
   | _ => None
